@@ -55,7 +55,10 @@ def check_rows(rows, header, ltable, rtable, lcols, rcols, lkey, rkey, louts, ro
         want = [ltable[a][lk], rtable[b][rk]] + [ltable[a][lcols.index(x)] for x in (louts or [])] + \
                [rtable[b][rcols.index(x)] for x in (routs or [])]
         got = list(row[off:off + len(want)])
-        if got != want:
+        same = lambda x, y: x == y or (x is None and y is None) or \
+            (isinstance(x, float) and isinstance(y, float) and math.isnan(x) and math.isnan(y)) or \
+            ((x is None or (isinstance(x, float) and math.isnan(x))) and (y is None or (isinstance(y, float) and math.isnan(y))))
+        if len(got) != len(want) or not all(same(x, y) for x, y in zip(got, want)):
             return 'row %r: projected values %r, expected %r' % (row, got, want)
         if with_score:
             sc, ws = row[-1], score_of(a, b)
@@ -133,3 +136,140 @@ class SetSimJoin(object):
             return 1.0 if both_empty(i, j) else round(s_(i, j), 4)
         return check_rows(out.values.tolist(), list(out.columns), lt, rt, lcols, rcols, 'id', 'rid', louts, routs,
                           'l_', 'r_', score, must, may, a['score'])
+
+
+# ----------------------------------------------------------------------------- join drivers
+def _frames(a):
+    import pandas as pd
+    import numpy as np
+    idx = [10 + 3 * i for i in range(len(a['l']))]
+    lt = pd.DataFrame({'lx': pd.Series(['lx%d' % i for i in range(len(a['l']))], dtype=object, index=idx),
+                       'id': pd.Series(['l%d' % i for i in range(len(a['l']))], dtype=object, index=idx),
+                       'v': pd.Series(a['l'], dtype=object, index=idx)}, index=idx)
+    rt = pd.DataFrame({'rid': pd.Series(['r%d' % i for i in range(len(a['r']))], dtype=object),
+                       'w': pd.Series(a['r'], dtype=object),
+                       'ry': pd.Series([float(i) for i in range(len(a['r']))], dtype=float)})
+    return lt, rt
+
+
+def gen_driver_inputs(rng, tier, n):
+    uni = ['a', 'b', 'c', 'd', 'e', 'f']
+    for _ in range(n):
+        k = rng.choice([3, 4, 6])
+        mk = lambda: None if rng.random() < 0.2 else ' '.join(rng.sample(uni[:k], rng.randint(0, k)))
+        yield dict(l=[mk() for _ in range(rng.randint(0, 4))], r=[mk() for _ in range(rng.randint(0, 4))],
+                   t=rng.choice(THR), allow_empty=rng.random() < 0.5, allow_missing=rng.random() < 0.5,
+                   score=rng.random() < 0.6, n_jobs=rng.choice([1, 1, 2, 3, -1]), bag=rng.random() < 0.5,
+                   lp=rng.choice(['l_', 'left.', '']), rp=rng.choice(['r_', 'R']),
+                   bad=rng.choice([None, None, None, 'l_key', 'r_join', 'threshold', 'tokenizer', 'ltable', 'dup_key',
+                                   'numeric_join', 'l_out']))
+
+
+class _Driver(object):
+    M = None
+
+    def fn(self):
+        import importlib
+        m = importlib.import_module('py_stringsimjoin.join.%s_join_py' % self.M.lower())
+        return getattr(m, '%s_join_py' % self.M.lower())
+
+    def inputs(self, case, rng, model, tier):
+        for a in gen_driver_inputs(rng, tier, 150 if tier != 'thorough' else 1500):
+            yield a
+
+    def check(self, case, a):
+        import pandas as pd
+        from py_stringmatching import WhitespaceTokenizer
+        M = self.M
+        try:
+            _, op, ll, rl = parse_case(case)
+        except Exception:
+            op, ll, rl = '>=', False, False
+        lt, rt = _frames(a)
+        lt0, rt0 = lt.copy(deep=True), rt.copy(deep=True)
+        tok = WhitespaceTokenizer(return_set=not a['bag'])
+        louts, routs = (['lx', 'id', 'v', 'lx'] if ll else None), (['ry'] if rl else None)
+        kw = dict(l_key_attr='id', r_key_attr='rid', l_join_attr='v', r_join_attr='w', threshold=a['t'])
+        args_t = [lt, rt]
+        expect = None
+        bad = a['bad']
+        if bad == 'l_key':
+            kw['l_key_attr'] = 'nope'; expect = AssertionError
+        elif bad == 'r_join':
+            kw['r_join_attr'] = 'nope'; expect = AssertionError
+        elif bad == 'threshold':
+            kw['threshold'] = 1.5; expect = AssertionError
+        elif bad == 'tokenizer':
+            tok = 'not a tokenizer'; expect = TypeError
+        elif bad == 'ltable':
+            args_t[0] = [1, 2]; expect = TypeError
+        elif bad == 'dup_key' and len(lt) >= 2:
+            lt.loc[lt.index[1], 'id'] = lt.loc[lt.index[0], 'id']; lt0 = lt.copy(deep=True); expect = AssertionError
+        elif bad == 'numeric_join':
+            kw['r_join_attr'] = 'ry'; expect = AssertionError
+        elif bad == 'l_out':
+            louts = ['zz']; expect = AssertionError
+        f = self.fn()
+        try:
+            out = f(args_t[0], args_t[1], kw['l_key_attr'], kw['r_key_attr'], kw['l_join_attr'], kw['r_join_attr'],
+                    tok, kw['threshold'], op, a['allow_empty'], a['allow_missing'], louts, routs, a['lp'], a['rp'],
+                    a['score'], a['n_jobs'], False)
+        except Exception as e:
+            if expect is None:
+                return 'valid call raised %s: %s' % (type(e).__name__, e)
+            if not isinstance(e, expect):
+                return 'expected %s, got %s: %s' % (expect.__name__, type(e).__name__, e)
+            if not isinstance(tok, str) and tok.get_return_set() != (not a['bag']):
+                return 'rejected call left the tokenizer in %s mode' % ('set' if tok.get_return_set() else 'bag')
+            return None
+        if expect is not None:
+            return 'invalid argument (%s) accepted' % bad
+        if tok.get_return_set() != (not a['bag']):
+            return 'tokenizer return_set changed from %r to %r' % (not a['bag'], tok.get_return_set())
+        if not lt.equals(lt0) or not rt.equals(rt0) or list(lt.index) != list(lt0.index):
+            return 'an input table was modified'
+        T = lambda s: WhitespaceTokenizer(return_set=True).tokenize(s)
+        cmp_ = OPS[op]
+        t = a['t']
+        lrows, rrows = lt.values.tolist(), rt.values.tolist()
+        lcols, rcols = list(lt.columns), list(rt.columns)
+        miss = lambda v: v is None or (isinstance(v, float) and math.isnan(v))
+        lv = lambda i: lrows[i][lcols.index('v')]
+        rv_ = lambda j: rrows[j][rcols.index('w')]
+
+        def both_empty(i, j):
+            return not T(lv(i)) and not T(rv_(j))
+
+        def s_(i, j):
+            return raw_sim(M, T(lv(i)), T(rv_(j)))
+
+        def must(i, j):
+            if miss(lv(i)) or miss(rv_(j)):
+                return a['allow_missing']
+            if both_empty(i, j):
+                return a['allow_empty']
+            if not T(lv(i)) or not T(rv_(j)):
+                return False
+            return cmp_(s_(i, j), t) and cmp_(round(s_(i, j), 4), t)
+
+        def may(i, j):
+            if miss(lv(i)) or miss(rv_(j)):
+                return a['allow_missing']
+            if both_empty(i, j):
+                return a['allow_empty']
+            if not T(lv(i)) or not T(rv_(j)):
+                return False
+            return cmp_(round(s_(i, j), 4), t)
+
+        def score(i, j):
+            if miss(lv(i)) or miss(rv_(j)):
+                return float('nan')
+            return 1.0 if both_empty(i, j) else round(s_(i, j), 4)
+        dl = None if louts is None else ['lx', 'v']
+        return check_rows(out.values.tolist(), list(out.columns), lrows, rrows, lcols, rcols, 'id', 'rid', dl, routs,
+                          a['lp'], a['rp'], score, must, may, a['score'], with_id=True)
+
+
+for _M in ('JACCARD', 'COSINE', 'DICE'):
+    _cls = type('Driver' + _M, (_Driver,), {'M': _M})
+    oracle('py_stringsimjoin.join.%s_join_py.%s_join_py' % (_M.lower(), _M.lower()))(_cls)
